@@ -115,8 +115,18 @@ def run(chk):
     chk.traces += len(regs)
     chk.mark("replay")
     events = drive_default(chk, rng, thorough)
+    usp_, psp_, _po, _nm = defreg._cache["sp"]
     for e, clause in defreg.validate(chk, "Trace_Names", events, label="names"):
-        chk.diverge({"clause": clause, "src": "default-registry", "observed": e.get("kind")}, {k: v for k, v in e.items() if k != "sp"})
+        # a string that reads only as prefix + (prefix + unit): resolvable only because an earlier lookup registered the inner
+        # prefixed unit as a name of its own (the driver resolves all strings on one registry)
+        raw = e["_raw"]
+        lazy = clause == "resolution-kind" and e["kind"] == "ok" and any(
+            raw.startswith(p1) and any(raw[len(p1):].startswith(p2) and (raw[len(p1) + len(p2):] in usp_ or raw[len(p1) + len(p2):].rstrip("s") in usp_)
+                                       for p2 in psp_ if p2) for p1 in psp_ if p1)
+        if lazy:
+            chk.diverge({"clause": "resolution", "class": "resolves-only-after-lazy-registration", "src": "default-registry"}, {k: v for k, v in e.items() if k != "sp"})
+        else:
+            chk.diverge({"clause": clause, "src": "default-registry", "observed": e.get("kind")}, {k: v for k, v in e.items() if k != "sp"})
     chk.mark("default-registry")
     offsets_and_deltas(chk)
     return chk.finish(
@@ -153,7 +163,7 @@ def drive_default(chk, rng, thorough):
             continue
         kind, name = real_resolve(fresh, s)
         ev = {"ev": "name", "s": reader.esc(s), "sp": reader.splits_of(s), "kind": kind if not kind.startswith("err") else "err", "name": reader.esc(name) if name else "",
-              "num": [0, 0], "den": [1, 1], "hasroot": False, "symbol": ""}
+              "num": [0, 0], "den": [1, 1], "hasroot": False, "symbol": "", "_raw": s}
         if kind == "ok":
             try:
                 f, _ = fresh.get_root_units(fresh.UnitsContainer({name: 1}))
